@@ -113,4 +113,16 @@ CLAIMED['C16'] = dict(category='proof',
         'non-mutating, complete-copy detection uses a run-time type probe on sample inputs. The run-time contracts and the '
         'serial=parallel comparison are BOUNDED. Bitwise identity across processes / file-system layout not decided.',
    technique='contract-based verification of frame conditions (static effect analysis of the real sources) + bounded run-time frame contracts')
+CLAIMED['C06'] = dict(category='proof',
+   text='Ownership contract on every clone method (Assembly, RoddedRegion, SingleNodeHomogeneous, MultiNodeHomogeneous, '
+        '_RREquivalent, Material): the attributes a clone still shares with its template (computed from the AST of the '
+        'real clone methods and of the set-up methods they call on the clone) are disjoint from the attributes whose '
+        'object the sweep methods modify in place (stores below the attribute, mutator calls, calls of dassh methods that '
+        'assign attributes of their own object); no module-level state is written. Hence advancing one assembly cannot '
+        'change what another one reads. Metamorphic run-time contracts (alone = in company, order independence) on '
+        'generated adiabatic cores with temperature-dependent sodium replay every finding.',
+   note='Attribute-level, syntactic effect analysis (assumptions in the evidence); shared read-only structures are allowed. '
+        'The metamorphic run-time contracts are BOUNDED (four generated cores). Cross-talk through the inter-assembly gap '
+        'is intended and belongs to C02.',
+   technique='contract-based verification of ownership/frame conditions (static effect analysis of the real clone and sweep methods) + bounded metamorphic run-time contracts')
 NOT_APPLICABLE = {f'C{i:02d}': 'check not built yet in this round (see DESIGN.md section 12 build order)' for i in range(1, 21)}
